@@ -93,6 +93,14 @@ func (g *Global) Type() types.Type {
 		g.Typ = types.NewPointer(g.ContentType)
 		g.Typ.AddrSpace = g.AddrSpace
 	}
+	// The address space may have been assigned after the type was cached (e.g.
+	// after NewGlobal); the cache is left as is, so that Type never writes to a
+	// global whose type is already present.
+	if g.Typ.AddrSpace != g.AddrSpace {
+		typ := types.NewPointer(g.Typ.ElemType)
+		typ.AddrSpace = g.AddrSpace
+		return typ
+	}
 	return g.Typ
 }
 
